@@ -310,7 +310,14 @@ def ks1(P, C):
                 ok = G == want
                 det = "standard-keyword branch taken iff %r < 0 (required strlen(key) - 9 < 0, i.e. at most 8 characters)" % G
         C.ob("KS-1", name, "short-key-boundary", ok, f.loc(branch) if branch is not None else f.where(), det)
-        init = [f.nodes[d["init"]].get("cv") for i in f.walk() if f.k(i) == "DeclStmt" for d in f.nodes[i]["decls"] if d.get("name") == "maxdatalen" and d.get("init", -1) >= 0]
+        # the value-length limit: the local that is re-assigned `80 - (...)` in the long-key branch; its initial value serves short keys
+        lim = None
+        for i in f.walk():
+            ap = ts.assign_parts(f, i)
+            if ap and ap[1] is not None and f.k(f.strip(ap[0])) == "DeclRefExpr" and f.k(f.strip(ap[1])) == "BinaryOperator" \
+                    and f.nodes[f.strip(ap[1])]["op"] == "-" and f.nodes[f.strip(f.nodes[f.strip(ap[1])]["ch"][0])].get("cv") == 80:
+                lim = f.nodes[f.strip(ap[0])]["decl"]["id"]
+        init = [f.nodes[d["init"]].get("cv") for i in f.walk() if f.k(i) == "DeclStmt" for d in f.nodes[i]["decls"] if d.get("id") == lim and d.get("init", -1) >= 0]
         C.ob("KS-1", name, "short-key-value-limit", init == [68], f.where(), "a standard card leaves 68 characters for a string value: %s" % init)
 
 
